@@ -44,6 +44,11 @@ var c07Layouts = []string{
 	"20060102T150405",
 	"2006-01-02T15:04:05",
 	"2006-02-01T15:04:05",
+	// the year as two digits
+	time.RFC822Z,
+	"060102 15:04:05",
+	"06/01/02 15:04:05",
+	"02-Jan-06 15:04:05",
 }
 
 func (c *c07Case) source() string {
